@@ -117,6 +117,7 @@ Section PassThrough.
 
   (* ---- idempotence reduced to the attribute filter (C20) ---- *)
   Hypothesis Hplain : plain_policy I p.
+  Hypothesis Hnocomments : allowComments p = false.     (* a comment is written with its data escaped again *)
   Hypothesis attrs_idem : forall n a aps, element_policies I p n = Some aps ->
     clean_attrs I p n (clean_attrs I p n a aps) aps = clean_attrs I p n a aps.
 
@@ -128,7 +129,7 @@ Section PassThrough.
     - destruct Hj as (_ & Hs & a0 & aps & _ & Hp & -> & Hb). split; [exact Hs|]. exists aps. split; [exact Hp|]. split; [apply attrs_idem; exact Hp | exact Hb].
     - destruct Hj as (_ & _ & Hs & Ha). auto.
     - destruct Hj as (_ & Hs & a0 & aps & _ & Hp & -> & Hb). split; [exact Hs|]. exists aps. split; [exact Hp|]. split; [apply attrs_idem; exact Hp | exact Hb].
-    - destruct Hj as (_ & Hc & _). destruct Hplain as (Hc' & _). congruence.
+    - destruct Hj as (_ & Hc & _). congruence.
   Qed.
 
   Theorem sanitize_idempotent s : sanitize_bytes I p (sanitize_bytes I p s) = sanitize_bytes I p s.
@@ -137,6 +138,6 @@ Section PassThrough.
     apply pass_through; [apply (emitted_items_ok I p Hplain) | apply emitted_canon].
   Qed.
 End PassThrough.
-Arguments sanitize_idempotent {M U R} I p Hplain attrs_idem s.
+Arguments sanitize_idempotent {M U R} I p Hplain Hnocomments attrs_idem s.
 Arguments pass_through {M U R} I p its.
 Arguments canon_item {M U R} I p it.
